@@ -97,7 +97,7 @@ def step (d : DS) (l : String) : DS × String :=
       let r := runPlan fs false prog (if i < 0 then none else some (i.toNat, k))
       (d, s!"{outName r.out} {showOpt (read r.fs 0)} temp={showOpt (read r.fs 1)}")
     | _, _, _, _ => (d, "bad-op")
-  | ["hsave", _, lim] =>
+  | ["hsave", _, lim] | ["hsave", _, lim, _] =>
     match lim.toInt? with
     | some l =>
       -- the history writer is WriteFileAtomic on a non-empty JSON document: a limit below its size fails the write
